@@ -144,6 +144,7 @@ TOTAL_APIS = [re.compile(x) for x in [
     r'^<(std|core)::(slice|str|iter|vec|option|result|collections|string|char|ops|array)::.* as std::iter::(Iterator|DoubleEndedIterator|ExactSizeIterator|IntoIterator|Extend<[^>]*>|FromIterator<[^>]*>)>::' + _ITER + '$',
     r'^<&.* as std::iter::IntoIterator>::into_iter$', r'^<I as std::iter::IntoIterator>::into_iter$', r'^<&mut I as std::iter::Iterator>::' + _ITER + '$',
     r'^std::iter::Peekable::<I>::(peek|peek_mut|next_if|next_if_eq)$',
+    r'^std::str::(Chars|CharIndices)(::<[^>]*>)?::(as_str|offset)$',
     r'^std::(option::Option|result::Result)::<[^>]*>::' + _OPT + '$',
     r'^(core|std)::num::<impl (i|u)(8|16|32|64|128|size)>::' + _INT + '$',
     r'^(core|std)::f(32|64)::<impl f(32|64)>::' + _FLOAT + '$',
